@@ -22,7 +22,8 @@ for d in sorted(glob.glob(V+'/seeded/C??-*')):
     sid=os.path.basename(d); m=json.load(open(d+'/meta.json'))
     det=m.get('detection','')
     cur=m.get('detection_now') or sweep.get(sid,'')
-    rows.append('| %s | %s | %s | %s | %s |'%(sid,cut(m.get('summary',''),260),cut(m.get('needs',''),220),cut(det,260) or '–',cut(cur,160)))
+    if m.get('cross_detection'): cur+=' – other checks: '+m['cross_detection']
+    rows.append('| %s | %s | %s | %s | %s |'%(sid,cut(m.get('summary',''),260),cut(m.get('needs',''),220),cut(det,260) or '–',cut(cur,300)))
 s=open(V+'/DESIGN.md').read()
 a=s.index('| seed | site / idea |'); 
 b=a
